@@ -280,8 +280,14 @@ func Verif_C07_Routing_String()  { c07Routing(constants.StringModule, gStr) }
 func Verif_C07_Routing_List()    { c07Routing(constants.ListModule, gList) }
 func Verif_C07_Routing_Hash()    { c07Routing(constants.HashModule, gHash) }
 func Verif_C07_Routing_Set()     { c07Routing(constants.SetModule, gSet) }
-func Verif_C07_Routing_ZSet()    { c07Routing(constants.SortedSetModule, gZSet) }
-
+func Verif_C07_Routing_ZSet_A() {
+	gCmdPart, gCmdParts = 0, 2
+	c07Routing(constants.SortedSetModule, gZSet)
+}
+func Verif_C07_Routing_ZSet_B() {
+	gCmdPart, gCmdParts = 1, 2
+	c07Routing(constants.SortedSetModule, gZSet)
+}
 
 // Verif_C07_ForwardedWrite: with forwarding on, a write that arrives at a follower is handed to
 // the leader and ends up - on every node - where a standalone server would have put it: in the
@@ -310,5 +316,72 @@ func Verif_C07_ForwardedWrite() {
 	c07Settle(nodes, dbs, k, k2)
 	vr.Assert(c07View(nodes[0], dbs, k, k2) == want, "C07.forward.write_lands_in_the_selected_database_on_the_leader")
 	vr.Assert(c07View(nodes[1], dbs, k, k2) == c07View(nodes[0], dbs, k, k2), "C07.forward.replica_same_dataset")
+	vr.Reach("end")
+}
+
+// Verif_C07_LeaderStateCopyAfterWrite: in cluster mode the state copy (what a raft snapshot of the
+// state machine and SAVE take) still completes after the leader has acknowledged writes: an
+// acknowledged write leaves no "mutation in progress" mark behind on any node.
+func Verif_C07_LeaderStateCopyAfterWrite() {
+	nodes := c07Cluster(2, false)
+	defer c07Shutdown(nodes)
+	dbs := []int{0}
+	c07Run(nodes[0], []string{"SET", "key", "val"})
+	if vr.Choose("second_write", 2) == 1 {
+		c07Run(nodes[0], []string{"INCR", "key"}) // a replicated write that fails
+	}
+	c07Settle(nodes, dbs, "key", "other")
+	who := vr.Choose("node", 2)
+	crashed := ""
+	func() {
+		defer func() {
+			if x := recover(); x != nil {
+				crashed = fmt.Sprint(x)
+			}
+		}()
+		vr.Go(func() { _ = nodes[who].getState() })
+		vr.Join()
+	}()
+	vr.Assert(!strings.Contains(crashed, "deadlock"), "C07.state_copy_after_write.nodeadlock")
+	vr.Reach("end")
+}
+
+// Verif_C07_ClusterSnapshotCompletes: SAVE on a cluster node takes a raft snapshot of the state machine
+// (FSM.Snapshot, Persist, Release). With data in one or two databases and after acknowledged writes it
+// completes: it neither waits forever for a mutation that has long finished, nor crashes the process.
+func Verif_C07_ClusterSnapshotCompletes() {
+	nodes := c07Cluster(2, false)
+	defer c07Shutdown(nodes)
+	dbs := []int{0, 1}
+	if vr.Choose("db1", 2) == 1 {
+		_ = nodes[0].SelectDB(1)
+	}
+	switch vr.Choose("data", 3) {
+	case 1:
+		c07Run(nodes[0], []string{"SET", "key", "val"})
+	case 2:
+		c07Run(nodes[0], []string{"SET", "key", "val"})
+		c07Run(nodes[0], []string{"RPUSH", "other", "a"})
+	}
+	c07Settle(nodes, dbs, "key", "other")
+	who := vr.Choose("node", 2)
+	crashed := ""
+	var err error
+	func() {
+		defer func() {
+			if x := recover(); x != nil {
+				crashed = fmt.Sprint(x)
+			}
+		}()
+		vr.Go(func() { err = nodes[who].raft.TakeSnapshot() })
+		vr.Join()
+	}()
+	vr.Assert(!strings.Contains(crashed, "deadlock"), "C07.cluster_snapshot.nodeadlock")
+	if !strings.Contains(crashed, "deadlock") {
+		vr.Assert(crashed == "", "C07.cluster_snapshot.nopanic")
+		if crashed == "" {
+			vr.Assert(err == nil || strings.Contains(err.Error(), "nothing new to snapshot"), "C07.cluster_snapshot.succeeds")
+		}
+	}
 	vr.Reach("end")
 }
